@@ -148,21 +148,21 @@ theorem sortOn_perm_self {α : Type} (key : α → Str) (l : List α) : (sortOn 
 
 /-! ### NameSelector -/
 
-theorem numberAux_nil (seen : List Ent) : numberAux seen [] = [] := by simp [numberAux]
+theorem numberAux_nil {lk : Bool} (seen : List Ent) : numberAux lk seen [] = [] := by simp [numberAux]
 
-theorem numberAux_seen (seen rest : List Ent) (e : Ent) (h : seen.any (fun s => s.uid == e.uid) = true) :
-    numberAux seen (e :: rest) = numberAux seen rest := by
+theorem numberAux_seen {lk : Bool} (seen rest : List Ent) (e : Ent) (h : seen.any (fun s => s.uid == e.uid) = true) :
+    numberAux lk seen (e :: rest) = numberAux lk seen rest := by
   rw [numberAux]; simp only [h, if_true]
 
-theorem numberAux_new (seen rest : List Ent) (e : Ent) (h : seen.any (fun s => s.uid == e.uid) = false) :
-    numberAux seen (e :: rest) =
-      (e, (seen.filter (fun s => s.key == e.key)).length + 1) :: numberAux (e :: seen) rest := by
+theorem numberAux_new {lk : Bool} (seen rest : List Ent) (e : Ent) (h : seen.any (fun s => s.uid == e.uid) = false) :
+    numberAux lk seen (e :: rest) =
+      (e, (seen.filter (fun s => s.keyAs lk == e.keyAs lk)).length + 1) :: numberAux lk (e :: seen) rest := by
   rw [numberAux]; simp only [h]; rfl
 
 /-- Under pairwise different keys every new item is the first of its key. -/
-theorem numberAux_unique (seen reqs : List Ent)
-    (hinj : ∀ a b, a ∈ seen ++ reqs → b ∈ seen ++ reqs → a.key = b.key → a.uid = b.uid) :
-    ∀ p, p ∈ numberAux seen reqs → p.2 = 1 := by
+theorem numberAux_unique {lk : Bool} (seen reqs : List Ent)
+    (hinj : ∀ a b, a ∈ seen ++ reqs → b ∈ seen ++ reqs → a.keyAs lk = b.keyAs lk → a.uid = b.uid) :
+    ∀ p, p ∈ numberAux lk seen reqs → p.2 = 1 := by
   induction reqs generalizing seen with
   | nil => intro p hp; simp [numberAux] at hp
   | cons e rest ih =>
@@ -176,7 +176,7 @@ theorem numberAux_unique (seen reqs : List Ent)
       rcases List.mem_cons.mp hp with rfl | hp'
       · simp only [Nat.add_eq_right, List.length_eq_zero_iff, List.filter_eq_nil_iff]
         intro s hs hk
-        have hk' : s.key = e.key := by simpa using hk
+        have hk' : s.keyAs lk = e.keyAs lk := by simpa using hk
         have : s.uid = e.uid := hinj s e (by simp [hs]) (by simp) hk'
         apply hnot
         simp only [List.any_eq_true]
@@ -186,9 +186,9 @@ theorem numberAux_unique (seen reqs : List Ent)
         apply hinj a b <;> simp_all <;> grind
 
 /-- every requested item not yet seen gets a number -/
-theorem numberAux_mem (seen reqs : List Ent) (e : Ent) (he : e ∈ reqs)
+theorem numberAux_mem {lk : Bool} (seen reqs : List Ent) (e : Ent) (he : e ∈ reqs)
     (hns : seen.any (fun s => s.uid == e.uid) = false) :
-    ∃ p, p ∈ numberAux seen reqs ∧ p.1.uid = e.uid := by
+    ∃ p, p ∈ numberAux lk seen reqs ∧ p.1.uid = e.uid := by
   induction reqs generalizing seen with
   | nil => cases he
   | cons x rest ih =>
@@ -210,8 +210,8 @@ theorem numberAux_mem (seen reqs : List Ent) (e : Ent) (he : e ∈ reqs)
 
 /-- numbering never revisits an item: the first components have pairwise different uids,
     all different from the uids already seen -/
-theorem numberAux_fresh (seen reqs : List Ent) :
-    ∀ p, p ∈ numberAux seen reqs → seen.any (fun s => s.uid == p.1.uid) = false := by
+theorem numberAux_fresh {lk : Bool} (seen reqs : List Ent) :
+    ∀ p, p ∈ numberAux lk seen reqs → seen.any (fun s => s.uid == p.1.uid) = false := by
   induction reqs generalizing seen with
   | nil => intro p hp; simp [numberAux] at hp
   | cons x rest ih =>
@@ -228,8 +228,8 @@ theorem numberAux_fresh (seen reqs : List Ent) :
         exact this.2
 
 /-- later requests do not change what earlier ones were given -/
-theorem numberAux_append (seen r₁ r₂ : List Ent) :
-    ∃ seen', numberAux seen (r₁ ++ r₂) = numberAux seen r₁ ++ numberAux seen' r₂ := by
+theorem numberAux_append {lk : Bool} (seen r₁ r₂ : List Ent) :
+    ∃ seen', numberAux lk seen (r₁ ++ r₂) = numberAux lk seen r₁ ++ numberAux lk seen' r₂ := by
   induction r₁ generalizing seen with
   | nil => exact ⟨seen, by simp [numberAux_nil]⟩
   | cons x rest ih =>
@@ -241,6 +241,60 @@ theorem numberAux_append (seen r₁ r₂ : List Ent) :
       rw [numberAux_new _ _ _ hx', numberAux_new _ _ _ hx']
       obtain ⟨s', hs'⟩ := ih (x :: seen)
       exact ⟨s', by rw [hs', List.cons_append]⟩
+
+/-- a number handed out exceeds the number of items already seen under the same key -/
+theorem numberAux_gt {lk : Bool} (seen reqs : List Ent) :
+    ∀ p, p ∈ numberAux lk seen reqs →
+      (seen.filter (fun s => s.keyAs lk == p.1.keyAs lk)).length < p.2 := by
+  induction reqs generalizing seen with
+  | nil => intro p hp; simp [numberAux] at hp
+  | cons x rest ih =>
+    intro p hp
+    by_cases hx : seen.any (fun s => s.uid == x.uid) = true
+    · rw [numberAux_seen _ _ _ hx] at hp
+      exact ih seen p hp
+    · have hx' : seen.any (fun s => s.uid == x.uid) = false := by simpa using hx
+      rw [numberAux_new _ _ _ hx'] at hp
+      rcases List.mem_cons.mp hp with rfl | hp'
+      · simp
+      · have := ih (x :: seen) p hp'
+        rw [List.filter_cons] at this
+        split at this
+        · simp only [List.length_cons] at this; omega
+        · exact this
+
+/-- two different items never get the same number under the same key -/
+theorem numberAux_distinct {lk : Bool} (seen reqs : List Ent) :
+    ∀ p q, p ∈ numberAux lk seen reqs → q ∈ numberAux lk seen reqs →
+      p.1.keyAs lk = q.1.keyAs lk → p.2 = q.2 → p = q := by
+  induction reqs generalizing seen with
+  | nil => intro p q hp; simp [numberAux] at hp
+  | cons x rest ih =>
+    intro p q hp hq hk hn
+    by_cases hx : seen.any (fun s => s.uid == x.uid) = true
+    · rw [numberAux_seen _ _ _ hx] at hp hq
+      exact ih seen p q hp hq hk hn
+    · have hx' : seen.any (fun s => s.uid == x.uid) = false := by simpa using hx
+      rw [numberAux_new _ _ _ hx'] at hp hq
+      rcases List.mem_cons.mp hp with rfl | hp'
+      · rcases List.mem_cons.mp hq with rfl | hq'
+        · rfl
+        · have := numberAux_gt (x :: seen) rest q hq'
+          rw [List.filter_cons] at this
+          have hb : (x.keyAs lk == q.1.keyAs lk) = true := by simpa using hk
+          simp only [hb, if_true, List.length_cons] at this
+          simp only at hn hk
+          rw [← hk] at this
+          omega
+      · rcases List.mem_cons.mp hq with rfl | hq'
+        · have := numberAux_gt (x :: seen) rest p hp'
+          rw [List.filter_cons] at this
+          have hb : (x.keyAs lk == p.1.keyAs lk) = true := by simpa using hk.symm
+          simp only [hb, if_true, List.length_cons] at this
+          simp only at hn hk
+          rw [hk] at this
+          omega
+        · exact ih (x :: seen) p q hp' hq' hk hn
 
 /-! ### file-system operation lists -/
 
